@@ -203,6 +203,23 @@ fn archives(ctx: &Ctx, i: u64) -> Arch {
             _ => SizeClass::Small,
         };
         let mut l = gen::gen_logical(&mut rng, class, codec);
+        if i % 40 == 13 {
+            // unique short contents on scattered ids, no codec: leaf directories whose size does not change when every content
+            // grows by one byte (the sibling archive below then has the very same layout and different entries)
+            l = gen::gen_logical(&mut rng, SizeClass::One, R::C_NONE);
+            l.tiles.clear();
+            let mut id = rng.below(100);
+            for k in 0..rng.range(5000, 9000) {
+                let len = rng.usize(3, 60);
+                let mut c = rng.bytes(len);
+                c[0] = k as u8;
+                c[1] = (k >> 8) as u8;
+                c[2] = 0xC7;
+                l.tiles.insert(id, std::rc::Rc::new(c));
+                id += 1 + rng.log_range(1, 1 << 16);
+            }
+            l.class = String::from("unique-short-contents/no-codec");
+        }
         if i % 20 == 11 || i % 20 == 19 {
             // tile ids beyond the last z/x/y-addressable id (add_tile takes any u64): open-ended ranges must reach them
             let dom = gen::id_domain();
@@ -218,7 +235,7 @@ fn archives(ctx: &Ctx, i: u64) -> Arch {
         let mut bytes = write_sync(l.build()).expect("write");
         let (steer, leaf_section, has_leaves) = steer_points(&bytes, &mut rng);
         let truncated = i % 8 == 7 && truncate_tile_data(&mut bytes);
-        let sibling = if codec == R::C_NONE && !truncated {
+        let sibling = if l.internal_compression == R::C_NONE && !truncated {
             // same ids, every content one byte longer and different: identical directory layout without a codec as long as the
             // lengths keep their varint widths
             let mut s = l.clone();
@@ -361,6 +378,19 @@ pub fn run(ctx: &mut Ctx) {
         }
         if a.label.contains("depth=5") || a.label.contains("depth=6") || a.label.contains("depth=7") || a.label.contains("depth=8") {
             ctx.count("archives_deeper_than_4");
+        }
+        if let Some(sb) = &a.sibling {
+            // the sibling archive is walked completely by range-filtered opens (all three entry points) before this archive is
+            // opened partially for the first time
+            let wide: [Rg; 2] = [(Bound::Included(0), Bound::Unbounded), (Bound::Unbounded, Bound::Included(u64::MAX - 1))];
+            for w in wide {
+                let _ = guard(|| PMTiles::from_bytes_partially(sb.clone(), w).map(|p| p.num_tiles()));
+                let mut s = Inst::new(sb.clone());
+                let _ = guard(|| PMTiles::from_reader_partially(&mut s, w).map(|p| p.num_tiles()));
+                let mut s2 = AInst::new(sb.clone());
+                let _ = guard(|| block_on(PMTiles::from_async_reader_partially(&mut s2, w)).map(|p| p.num_tiles()));
+            }
+            ctx.count("archives_opened_after_a_sibling_of_identical_layout");
         }
         for (ri, r) in rs.iter().enumerate() {
             let mat = json!({"archive": a.label, "archive_len": a.bytes.len(), "range": show(r), "tiles_in_full_open": full_ids.len()});
